@@ -147,7 +147,7 @@ def functor_cases(draw, tier):
                 pool=tpool, names=TARGET, max_boxes=2, max_width=5))
             entry = {"gen": [name, [list(x) for x in dom],
                              [list(x) for x in cod], word], "image": img}
-            if cls != "cat" and len(images) < 2:
+            if len(images) < 2:
                 # a second, parallel image: the box may be sent to their sum
                 entry["alt"] = draw(gen.diagrams_to(
                     cls, image_type(obmap, dom), image_type(obmap, cod),
@@ -253,12 +253,45 @@ def check_functor(case):
                                          common.show(Fd, 150)))
 
 
+def check_sum_images_cat(case, with_alt):
+    """ Free functors: a box sent to a sum of two parallel arrows; the image
+    of a composite is the composite of the images (a sum of composites). """
+    from discopy import cat
+    if not with_alt:
+        return
+    d = specs.build(case["d"])
+    ob = {specs.ty("cat", [[n, 0]]): specs.ty("cat", img)
+          for n, img in case["ob"].items()}
+    fspec = fspec_of(case)
+    ar = {}
+    for (name, dom, cod, word), img in fspec["images"].items():
+        box = specs.box("cat", {"k": "box", "name": name,
+                                "dom": [list(x) for x in dom],
+                                "cod": [list(x) for x in cod], "dag": False})
+        ar[box] = specs.build(img)
+    for g in with_alt:
+        name, dom, cod = g["gen"][:3]
+        box = specs.box("cat", {"k": "box", "name": name, "dom": dom,
+                                "cod": cod, "dag": False})
+        ar[box] = specs.build(g["image"]) + specs.build(g["alt"])
+    G = cat.Functor(ob, ar)
+    if not len(d) or any(b.is_dagger for b in d.boxes):
+        return
+    chain = G(d.boxes[0])
+    for bx in d.boxes[1:]:
+        chain = chain >> G(bx)
+    if isinstance(chain, cat.Sum):   # some box of d is sent to a sum
+        eq(G(d), chain, "composite-of-sum-images")
+
+
 def check_sum_images(case, cls):
     """ Boxes sent to formal sums of two parallel diagrams: the image of
     two boxes side by side (or one after the other) is the tensor (composite)
     of their images, term for term. """
     with_alt = [g for g in case["images"] if "alt" in g]
-    if cls == "cat" or len(with_alt) < 2:
+    if cls == "cat":
+        return check_sum_images_cat(case, with_alt)
+    if len(with_alt) < 2:
         return
     m = specs.mod(cls)
     ob = {specs.ty(cls, [[n, 0]]): specs.ty(cls, img)
